@@ -1,10 +1,163 @@
-"""Bounded contract evaluation on the real crate (native back end) — see DESIGN.md 3.3."""
+"""Bounded contract evaluation on the real crate (native back end) — DESIGN.md §3.3.
+
+The oracle (native/mirror.rs), the enumerators and the per-unit contract checks are appended, under
+cfg(besok_jsonpath_rust_verif), to a scratch copy of /repo's working tree and driven by a tiny runner
+crate.  Results are bounded evidence: they are never counted as discharged proof obligations.
+"""
 from __future__ import annotations
+import json, os, re, subprocess, time
+from .world import VERIF
+
+EXPORTS = [("native/exports/segment.rs", "src/query/segment.rs"), ("native/exports/selector.rs", "src/query/selector.rs"),
+           ("native/exports/comparison.rs", "src/query/comparison.rs"), ("native/exports/test_function.rs", "src/query/test_function.rs")]
+MODULES = ["mirror.rs", "kjson.rs", "gen.rs", "checks.rs", "main.rs"]
+
+# property -> [(group, [obligation prefixes that belong to the property])]
+GROUPS = {
+    "C01": [("e2e", ["e2e.members"]), ("name_lookup", ["process_key.member"]), ("descendant", ["process_descendant.preorder"]),
+            ("selectors", ["process_selectors.members"])],
+    "C02": [("e2e", ["e2e.order"]), ("descendant", ["process_descendant.preorder"]), ("selectors", ["process_selectors.order", "process_selectors.members"])],
+    "C03": [("e2e", ["e2e.path"]), ("pointer_text", ["Pointer::key.text", "Pointer::idx.text"]), ("name_lookup", ["process_key.path"]),
+            ("descendant", ["process_descendant.path"]), ("requery", ["path.requery", "path.injective"])],
+    "C04": [("cmp_struct", ["eq.structural", "lt.order"])],
+    "C05": [("e2e_filter", ["e2e_filter.members", "e2e_filter.order"])],
+    "C08": [("e2e", ["e2e.no_panic", "e2e.ok"]), ("arith", ["process_index", "process_slice"])],
+    "C10": [("regex", ["regex.match", "regex.search"]), ("e2e_fn", ["e2e_fn.members"])],
+    "C11": [("arith", ["process_index.select", "process_slice.select"])],
+    "C15": [("e2e", ["e2e.view_independent"])],
+}
+# Verus unit -> bounded groups that can produce a failing input for it
+CEX_GROUPS = {
+    "process_index": ["arith"], "process_slice": ["arith"],
+}
+TARGET = os.path.join(VERIF, "native", "target")
 
 
-def search_counterexample(run, unit: str, failed: list[str]):
-    return None
+def build(run) -> str | None:
+    """returns the runner binary, or None (undecided) if the build failed"""
+    if getattr(run, "_native_bin", None):
+        return run._native_bin
+    crate = os.path.join(run.scratch, "native-crate")
+    subprocess.run(["rsync", "-a", "--exclude", "target", "--exclude", ".git", run.repo.root + "/", crate + "/"], check=True)
+    for src, rel in EXPORTS:
+        with open(os.path.join(crate, rel), "a") as f:
+            f.write(open(os.path.join(VERIF, src)).read())
+    with open(os.path.join(crate, "src/query.rs"), "a") as f:
+        f.write("\n// ===== appended by /verif (cfg(besok_jsonpath_rust_verif) only): bounded back end =====\n"
+                "#[cfg(besok_jsonpath_rust_verif)]\n#[allow(dead_code, unused_imports, unused_variables)]\npub mod verif_native {\n")
+        for m in MODULES:
+            f.write(open(os.path.join(VERIF, "native", m)).read())
+        f.write("\n}\n")
+    runner = os.path.join(run.scratch, "native-runner")
+    os.makedirs(os.path.join(runner, "src"), exist_ok=True)
+    with open(os.path.join(runner, "Cargo.toml"), "w") as f:
+        f.write('[package]\nname = "verif-native-runner"\nversion = "0.0.0"\nedition = "2021"\n\n[dependencies]\n'
+                'jsonpath-rust = { path = "../native-crate" }\n\n[profile.dev]\nopt-level = 1\noverflow-checks = true\ndebug = false\n')
+    with open(os.path.join(runner, "src/main.rs"), "w") as f:
+        f.write("fn main() { jsonpath_rust::query::verif_native::main() }\n")
+    lock = os.path.join(run.repo.root, "Cargo.lock")
+    if os.path.exists(lock):
+        subprocess.run(["cp", lock, os.path.join(runner, "Cargo.lock")])
+    env = dict(os.environ, CARGO_NET_OFFLINE="true", CARGO_TARGET_DIR=TARGET,
+               RUSTFLAGS="--cfg besok_jsonpath_rust_verif -A unexpected_cfgs -A warnings")
+    t0 = time.time()
+    p = subprocess.run(["cargo", "build", "--offline", "-q"], cwd=runner, env=env, capture_output=True, text=True)
+    run.native_build_s = time.time() - t0
+    if p.returncode != 0:
+        run.undecided.append("native back end does not build against this tree: " + p.stderr[-600:].replace("\n", " | "))
+        return None
+    run._native_bin = os.path.join(TARGET, "debug", "verif-native-runner")
+    return run._native_bin
+
+
+def run_groups(run, groups: list[str], only=None) -> list[dict] | None:
+    binp = build(run)
+    if not binp:
+        return None
+    cache = getattr(run, "_native_cache", {})
+    run._native_cache = cache
+    todo = [g for g in groups if (g, only) not in cache]
+    if todo:
+        cmd = [binp, ",".join(todo), run.tier, str(run.seed)] + ([str(only[0]), str(only[1])] if only else [])
+        t0 = time.time()
+        try:
+            p = subprocess.run(cmd, capture_output=True, text=True, timeout=7200)
+        except subprocess.TimeoutExpired:
+            run.undecided.append(f"native groups {todo}: timeout")
+            return None
+        if p.returncode != 0:
+            run.undecided.append(f"native groups {todo}: runner failed: " + p.stderr[-400:])
+            return None
+        for r in json.loads(p.stdout):
+            r["wall_s"] = round(time.time() - t0, 2)
+            cache[(r["group"], only)] = r
+        run.checker_cmds.append("verif-native-runner " + " ".join(cmd[1:]))
+    return [cache[(g, only)] for g in groups]
 
 
 def run_for(run):
-    return
+    spec = GROUPS.get(run.prop, [])
+    if not spec:
+        return
+    res = run_groups(run, [g for g, _ in spec])
+    if res is None:
+        return
+    ev = run.bounded
+    for (g, prefixes), r in zip(spec, res):
+        ev["evaluations"] = ev.get("evaluations", 0) + r["evaluations"]
+        ev["distinct_nontrivial"] = ev.get("distinct_nontrivial", 0) + r["distinct_nontrivial"]
+        ev.setdefault("bounded_groups", []).append({"group": g, "evaluations": r["evaluations"], "distinct_nontrivial": r["distinct_nontrivial"],
+                                                    "obligations": prefixes, "wall_s": r.get("wall_s")})
+        for s in r.get("samples", [])[:3]:
+            run.samples.append({"bounded_group": g, "case": s})
+        for f in r["failures"]:
+            if not any(f["obligation"].startswith(p) for p in prefixes):
+                continue
+            unit = f["obligation"].rsplit(".", 1)[0]
+            os.makedirs(os.path.join(VERIF, "replays"), exist_ok=True)
+            tag = re.sub(r"\W+", "_", f["obligation"] + "_" + "_".join(f["features"]))[:120]
+            path = os.path.join(VERIF, "replays", f"{run.prop}_{tag}.json")
+            w = f["witnesses"][0] if f["witnesses"] else {}
+            doc = {"property": run.prop, "unit": unit, "backend": "native-bounded", "group": g, "tier": run.tier, "seed": run.seed,
+                   "failed_obligations": [f["obligation"]], "input_features": f["features"], "count": f["count"],
+                   "counterexample": w, "more_witnesses": f["witnesses"][1:]}
+            with open(path, "w") as fh:
+                json.dump(doc, fh, indent=1)
+            run.violations.append({"unit": unit, "obligations": [f["obligation"]], "features": f["features"], "replay": path, "cex": w, "count": f["count"]})
+    ev["rule"] = ("bounded contract evaluation of the real functions against the executable RFC 9535 mirror (native/mirror.rs); inputs enumerated by "
+                  "native/gen.rs: all documents of depth <= 1 over 15 leaves plus curated and seeded random documents of depth <= 3; ASTs built directly "
+                  "(never through the parser) from the selector / filter menus, 1-3 segments; a case is non-trivial when the expected or observed nodelist "
+                  "is non-empty (per-unit groups: when the contract's expected result is non-empty)")
+
+
+def search_counterexample(run, unit: str, failed: list[str]):
+    """a Verus obligation failed: look for a concrete failing input of the same unit with the bounded evaluator"""
+    groups = CEX_GROUPS.get(unit) or ["e2e"]
+    try:
+        res = run_groups(run, groups)
+    except Exception:
+        return None
+    if not res:
+        return None
+    for r in res:
+        for f in r["failures"]:
+            from . import findings
+            v = {"unit": f["obligation"].rsplit(".", 1)[0], "obligations": [f["obligation"]], "features": f["features"]}
+            if findings.match_open(None, v):
+                continue
+            if f["witnesses"]:
+                return {"group": r["group"], "obligation": f["obligation"], "input": f["witnesses"][0], "count": f["count"]}
+    return None
+
+
+def replay(run, doc) -> int:
+    w = doc.get("counterexample") or {}
+    only = (w.get("qi", 0), w.get("di", 0))
+    run.tier, run.seed = doc.get("tier", "quick"), doc.get("seed", 0)
+    res = run_groups(run, [doc["group"]], only=only)
+    if not res:
+        return 2
+    hits = [f for f in res[0]["failures"] if f["obligation"] in doc["failed_obligations"]]
+    print(json.dumps(hits, indent=1)[:3000])
+    print("replay:", "violation reproduced on the real code" if hits else "not reproduced")
+    return 1 if hits else 0
